@@ -295,9 +295,11 @@ func c17(c *ev.Ctx) {
 			}
 		}
 	}
-	subjects := []string{"", "abc", "Hello World", "line1\nline2", "  x  ", "aXbXc", "123", "héllo", "  Steve\t", "   ", " abc ", "abc\n", "\nabc", " l1 \n l2 ", "a-b-c", "5 USD"}
+	subjects := []string{"", "abc", "Hello World", "foobar abc", "line1\nline2", "  x  ", "aXbXc", "123", "héllo", "  Steve\t", "   ", " abc ", "abc\n", "\nabc", " l1 \n l2 ", "a-b-c", "5 USD"}
 	patterns := []gast.Expr{gast.RegexLit{Pat: "l+"}, gast.RegexLit{Pat: "^h", Flags: "i"}, gast.RegexLit{Pat: "[0-9]+"}, gast.RegexLit{Pat: "X"}, gast.RegexLit{Pat: "^line2$"}, gast.RegexLit{Pat: "(a)(b)"}, gast.StrLit{V: "b"}, gast.StrLit{V: "^a"}, gast.IntLit{V: 2},
-		gast.StrLit{V: "^Steve$"}, gast.RegexLit{Pat: "^$"}, gast.StrLit{V: "^abc$"}, gast.StrLit{V: "^\\s"}, gast.RegexLit{Pat: "\\s$"}, gast.StrLit{V: "-"}, gast.StrLit{V: "USD"}, gast.RegexLit{Pat: "^l2$"}, gast.RegexLit{Pat: "x*"}}
+		gast.StrLit{V: "^Steve$"}, gast.RegexLit{Pat: "^$"}, gast.StrLit{V: "^abc$"}, gast.StrLit{V: "^\\s"}, gast.RegexLit{Pat: "\\s$"}, gast.StrLit{V: "-"}, gast.StrLit{V: "USD"}, gast.RegexLit{Pat: "^l2$"}, gast.RegexLit{Pat: "x*"},
+		// literals that begin with a group or inline flags of their own
+		gast.RegexLit{Pat: "(?:ll)o"}, gast.RegexLit{Pat: "(?:b|X)c"}, gast.RegexLit{Pat: "(?P<n>l)l"}, gast.RegexLit{Pat: "(?i:hel)lo"}, gast.RegexLit{Pat: "(?s)e.*"}, gast.RegexLit{Pat: "(?:ba)r", Flags: "i"}, gast.RegexLit{Pat: "(?i)(?:wo)rld", Flags: "m"}, gast.StrLit{V: "(?:ll)o"}, gast.StrLit{V: "(?i)HELLO"}}
 	for _, s := range subjects {
 		for _, p := range patterns {
 			jobs = append(jobs, gast.Call{Fn: "match", Args: []gast.Expr{gast.StrLit{V: s}, p}})
